@@ -44,7 +44,7 @@ def to_smt2(hyps, goal, cover=False, scope=None):
     return s.to_smt2()
 
 
-def _check_z3(smt2, timeout_ms, seed, for_model=False):
+def _check_z3_inproc(smt2, timeout_ms, seed, for_model=False):
     s = z3.Solver()
     s.set("timeout", timeout_ms)
     s.set("random_seed", seed)
@@ -62,6 +62,69 @@ def _check_z3(smt2, timeout_ms, seed, for_model=False):
             model = None
     reason = s.reason_unknown() if r == z3.unknown else ""
     return str(r), dt, model, reason
+
+
+HARD_GRACE_S = 10          # the API's own timeout is cooperative; after this much extra time the child is killed
+HARD_MEM_BYTES = 6 << 30   # address-space limit of the child that runs the API query
+
+
+def _check_z3(smt2, timeout_ms, seed, for_model=False):
+    """z3 5.1 through the Python API, in a forked child under a HARD time and memory limit: the API's timeout is only checked
+    cooperatively, and the sequence solver has been seen to run for 17 minutes / 7 GB on a 3 s budget (seeded change C01o). A child that
+    is killed or dies counts as 'unknown' -- never as a verdict."""
+    import pickle, select, signal
+    rfd, wfd = os.pipe()
+    t0 = time.time()
+    pid = os.fork()
+    if pid == 0:
+        code = 0
+        try:
+            os.close(rfd)
+            try:
+                import resource
+                resource.setrlimit(resource.RLIMIT_AS, (HARD_MEM_BYTES, HARD_MEM_BYTES))
+            except Exception:
+                pass
+            try:
+                out = _check_z3_inproc(smt2, timeout_ms, seed, for_model)
+            except BaseException as e:  # MemoryError, Z3Exception ...
+                out = ("unknown", time.time() - t0, None, f"child: {type(e).__name__}: {str(e)[:200]}")
+            with os.fdopen(wfd, "wb") as fh:
+                pickle.dump(out, fh)
+        except BaseException:
+            code = 1
+        finally:
+            os._exit(code)
+    os.close(wfd)
+    deadline = t0 + timeout_ms / 1000.0 + HARD_GRACE_S
+    data = b""
+    killed = False
+    try:
+        while True:
+            left = deadline - time.time()
+            if left <= 0:
+                killed = True
+                break
+            ready, _, _ = select.select([rfd], [], [], min(left, 1.0))
+            if ready:
+                chunk = os.read(rfd, 1 << 16)
+                if not chunk:
+                    break
+                data += chunk
+    finally:
+        os.close(rfd)
+        if killed:
+            try:
+                os.kill(pid, signal.SIGKILL)
+            except OSError:
+                pass
+        os.waitpid(pid, 0)
+    if killed or not data:
+        return "unknown", time.time() - t0, None, "hard-limit: child killed (time)" if killed else "hard-limit: child died (memory?)"
+    try:
+        return pickle.loads(data)
+    except Exception:
+        return "unknown", time.time() - t0, None, "hard-limit: unreadable child result"
 
 
 def _check_cvc5(smt2, timeout_s, fmf=False):
@@ -113,13 +176,8 @@ def _validated(smt2, r, timeout_s=15):
         eqs.append(f"(assert (= {name} {m.group(3)}))")
     if not eqs:
         return "unknown"
-    s = z3.Solver()
-    s.set("timeout", timeout_s * 1000)
-    try:
-        s.from_string(smt2.replace("(check-sat)", "") + "\n" + "\n".join(eqs))
-    except z3.Z3Exception:
-        return "unknown"
-    return "sat" if s.check() == z3.sat else "unknown"
+    r2, _dt, _m, _reason = _check_z3(smt2.replace("(check-sat)", "") + "\n" + "\n".join(eqs), timeout_s * 1000, 0)
+    return "sat" if r2 == "sat" else "unknown"
 
 
 def _check_z3_cli_model(smt2, timeout_s):
